@@ -101,7 +101,39 @@ func runC04(c *core.Ctx) {
 	c.Floor("R04g", 6, "2 constructors x (candidate expr from split result, filter expr from split input, presence decided by comparing the two)")
 	c.Floor("R04h", 1, "XML CharData case")
 	c.Floor("R04i", 6, "2 readers x (marking store, delivering return, rejecting removal)")
-	c04OuterMostOnly(c)
+	c04RuleF(e)
+}
+
+// c04RuleF is R04f (outermost candidate only) on the role-resolved readers: every marking decision - a non-nil
+// store into the holder, directly or through its setter accessor - is dominated by the edge on which the holder
+// (read directly, through a promoted field or through its getter) is nil. Same rule id, keys and floor as
+// c04OuterMostOnly in extra.go, which does not see accessors / embedded state structs.
+func c04RuleF(e *c04Env) {
+	c := e.c
+	n := 0
+	for _, r := range e.readers {
+		for _, d := range r.marks {
+			n++
+			key := core.FuncKey(d.fn) + " marks candidate"
+			ok := false
+			for _, b := range d.fn.Blocks {
+				k := c04NilTestEdge(b, func(v ssa.Value) bool { return c04IsLoadOf(v, r.holder) })
+				if k < 0 {
+					continue
+				}
+				s := b.Succs[k]
+				if len(s.Preds) == 1 && s.Dominates(d.instr.Block()) {
+					ok = true
+				}
+			}
+			c.Check(ok, "R04f", key, core.InstrPos(d.instr), "the candidate is marked only on the edge where no candidate is open",
+				"a node is marked as the stream candidate although another candidate may still be open: a nested node on the target path replaces the outer one, which is then never delivered")
+		}
+	}
+	if n == 0 {
+		c.Unresolved("R04f", "candidate marking", "no store into a stream reader's holder found")
+	}
+	c.Floor("R04f", 2, "streamCandidateCheck of the XML and JSON stream readers")
 }
 
 // ---------------------------------------------------------------- R04a
@@ -171,7 +203,7 @@ func c04RuleA(e *c04Env, r *c04Reader) {
 			if v == nil {
 				return false
 			}
-			if v == d.val || core.SameValue(v, d.val) {
+			if v == d.val || c04SameVal(v, d.val) {
 				return true
 			}
 			if x.kind == "marks candidate" {
@@ -282,6 +314,12 @@ func c04RuleB(e *c04Env, r *c04Reader) {
 				key := core.FuncKey(m) + " advances cursor via " + what
 				why := ""
 				fail := c04Walk(b, i+1, 0, func(in ssa.Instruction, st int) (int, int) {
+					if v, ok := c04StoreTo(in, r.holder); ok {
+						if !core.IsNilConst(v) {
+							return st, c04Stop // inlined marking decision
+						}
+						return st, c04Cont
+					}
 					switch x := in.(type) {
 					case ssa.CallInstruction:
 						if e.checkCall(r, x, 0) {
@@ -290,10 +328,6 @@ func c04RuleB(e *c04Env, r *c04Reader) {
 						if e.consumes(x) {
 							why = "the next token is fetched (" + c04CalleeKey(x) + ")"
 							return st, c04Fail
-						}
-					case *ssa.Store:
-						if v, ok := c04StoreTo(x, r.holder); ok && !core.IsNilConst(v) {
-							return st, c04Stop // inlined marking decision
 						}
 					case *ssa.Return:
 						if c04AbortReturn(x) {
@@ -355,7 +389,7 @@ func c04RuleC(e *c04Env, r *c04Reader) {
 					return true
 				}
 				ci, ok := in.(ssa.CallInstruction)
-				return ok && ci.Common().StaticCallee() == e.remove
+				return ok && c04Callee(ci) == e.remove
 			})
 			fail, _ := c04WalkInl(rej, 0, 0, func(w *c04Walker, in ssa.Instruction, st int) (int, int) {
 				need := func(what string) (int, int) {
@@ -369,16 +403,15 @@ func c04RuleC(e *c04Env, r *c04Reader) {
 					}
 					return st, c04Fail
 				}
-				switch x := in.(type) {
-				case *ssa.Store:
-					if v, ok := c04StoreTo(x, r.holder); ok {
-						if core.IsNilConst(v) {
-							return st | cleared, c04Cont
-						}
-						return st &^ cleared, c04Cont
+				if v, ok := c04StoreTo(in, r.holder); ok {
+					if core.IsNilConst(w.resolve(v)) {
+						return st | cleared, c04Cont
 					}
+					return st &^ cleared, c04Cont
+				}
+				switch x := in.(type) {
 				case ssa.CallInstruction:
-					if x.Common().StaticCallee() == e.remove && c04IsLoadOf(w.resolve(x.Common().Args[0]), r.holder) {
+					if c04Callee(x) == e.remove && c04IsLoadOf(w.resolve(x.Common().Args[0]), r.holder) {
 						return st | removed, c04Cont
 					}
 					if helper(x) && w.canDescend(x) {
@@ -406,28 +439,24 @@ func c04RuleC(e *c04Env, r *c04Reader) {
 // c04CleanBeforeConsume checks that on every path from the entry of fn to the first input-consuming call
 // the holder (an address recognised by isHolderAddr) is either known to be nil or has been cleaned:
 // cleanup(ci) recognises the detaching call; needClear additionally requires a nil store into the holder.
-func c04CleanBeforeConsume(e *c04Env, fn *ssa.Function, isHolderAddr func(ssa.Value) bool, cleanup func(w *c04Walker, ci ssa.CallInstruction) bool, needClear bool) (fail ssa.Instruction, why string) {
+func c04CleanBeforeConsume(e *c04Env, fn *ssa.Function, h *types.Var, cleanup func(w *c04Walker, ci ssa.CallInstruction) bool, needClear bool) (fail ssa.Instruction, why string) {
 	const knownNil, removed, cleared = 1, 2, 4
-	isHolderLoad := func(v ssa.Value) bool {
-		u, ok := v.(*ssa.UnOp)
-		return ok && u.Op == token.MUL && isHolderAddr(u.X)
-	}
+	isHolderLoad := func(v ssa.Value) bool { return c04IsLoadOf(v, h) }
 	helper := e.helperPred(func(in ssa.Instruction) bool {
-		if st, ok := in.(*ssa.Store); ok && isHolderAddr(st.Addr) {
+		if _, ok := c04StoreTo(in, h); ok {
 			return true
 		}
 		ci, ok := in.(ssa.CallInstruction)
 		return ok && cleanup(nil, ci)
 	})
 	fail, _ = c04WalkInl(fn.Blocks[0], 0, 0, func(w *c04Walker, in ssa.Instruction, st int) (int, int) {
-		switch x := in.(type) {
-		case *ssa.Store:
-			if isHolderAddr(x.Addr) {
-				if core.IsNilConst(x.Val) {
-					return st | cleared, c04Cont
-				}
-				return st &^ (cleared | knownNil | removed), c04Cont
+		if v, ok := c04StoreTo(in, h); ok {
+			if core.IsNilConst(w.resolve(v)) {
+				return st | cleared, c04Cont
 			}
+			return st &^ (cleared | knownNil | removed), c04Cont
+		}
+		switch x := in.(type) {
 		case ssa.CallInstruction:
 			if cleanup(w, x) {
 				return st | removed, c04Cont
@@ -458,7 +487,7 @@ func c04CleanBeforeConsume(e *c04Env, fn *ssa.Function, isHolderAddr func(ssa.Va
 		if st&cleared != 0 && st&removed == 0 {
 			return st
 		}
-		if k := c04NilTestEdge(from, isHolderLoad); k >= 0 && k == succ {
+		if k := c04NilTestEdge(from, func(v ssa.Value) bool { return isHolderLoad(w.resolve(v)) }); k >= 0 && k == succ {
 			return st | knownNil
 		}
 		return st
@@ -466,31 +495,22 @@ func c04CleanBeforeConsume(e *c04Env, fn *ssa.Function, isHolderAddr func(ssa.Va
 	return fail, why
 }
 
-func c04FieldHolderPred(h *types.Var) func(ssa.Value) bool {
-	return func(a ssa.Value) bool {
-		fa, ok := a.(*ssa.FieldAddr)
-		return ok && core.FieldOfAddr(fa) == h
-	}
-}
-
 // c04ReadCleans applies the clean-before-consume rule to a Read method whose holder is a direct field.
 func c04ReadCleans(e *c04Env, rule string, read *ssa.Function, h *types.Var, keySuffix string) {
 	c := e.c
-	isH := c04FieldHolderPred(h)
 	key := core.FuncKey(read) + keySuffix + h.Name()
 	if !e.consumesFn(read) {
 		c.Unknown(rule, key, read.Pos(), "no input-consuming call found below Read: cannot locate the point before which the previous node must be detached")
 		return
 	}
-	fail, why := c04CleanBeforeConsume(e, read, isH, func(w *c04Walker, ci ssa.CallInstruction) bool {
-		if ci.Common().StaticCallee() != e.remove {
+	fail, why := c04CleanBeforeConsume(e, read, h, func(w *c04Walker, ci ssa.CallInstruction) bool {
+		if c04Callee(ci) != e.remove {
 			return false
 		}
 		if w == nil {
 			return true // helper discovery: any release counts
 		}
-		u, ok := w.resolve(ci.Common().Args[0]).(*ssa.UnOp)
-		return ok && u.Op == token.MUL && isH(u.X)
+		return c04IsLoadOf(w.resolve(ci.Common().Args[0]), h)
 	}, true)
 	if fail != nil {
 		c.Bad(rule, key, core.InstrPos(fail), why)
@@ -527,7 +547,7 @@ func c04RuleE(e *c04Env, r *c04Reader) {
 		onChain[f] = true
 		chain = append(chain, f)
 		for _, ci := range core.Calls(f) {
-			grow(ci.Common().StaticCallee())
+			grow(c04Callee(ci))
 		}
 	}
 	grow(read)
@@ -556,7 +576,7 @@ func c04RuleE(e *c04Env, r *c04Reader) {
 			case *ssa.Extract:
 				return origin(x.Tuple, d+1)
 			case *ssa.Call:
-				cf := x.Call.StaticCallee()
+				cf := c04Callee(x)
 				if cf != nil && (r.wrapFn[cf] || onChain[cf]) {
 					return ""
 				}
@@ -634,7 +654,7 @@ func c04ClosedCallers(e *c04Env, r *c04Reader, f *ssa.Function, depth int) strin
 	n := 0
 	for _, m := range r.methods {
 		for _, ci := range core.Calls(m) {
-			if ci.Common().StaticCallee() != f {
+			if c04Callee(ci) != f {
 				continue
 			}
 			n++
@@ -733,7 +753,7 @@ func c04ExprFields(e *c04Env, r *c04Reader) (path, filter *types.Var) {
 		if f == nil || fa == nil {
 			return nil
 		}
-		if n := core.FieldOwner(fa); n == nil || n.Obj() != r.tn {
+		if !e.readerField(r.tn, f) {
 			return nil
 		}
 		if pkg, name := c04NamedPath(f.Type()); pkg != "github.com/antchfx/xpath" || name != "Expr" {
@@ -925,7 +945,7 @@ func c04Leaves(v ssa.Value, at ssa.Instruction, depth int) []c04Leaf {
 			break
 		}
 		if call, ok := x.Tuple.(*ssa.Call); ok {
-			if cf := call.Call.StaticCallee(); cf != nil && cf.Blocks != nil && core.InRepo(core.FuncPkg(cf)) {
+			if cf := c04Callee(call); cf != nil && cf.Blocks != nil && core.InRepo(core.FuncPkg(cf)) {
 				var out []c04Leaf
 				for _, b := range cf.Blocks {
 					for _, in := range b.Instrs {
@@ -963,7 +983,7 @@ func c04Leaves(v ssa.Value, at ssa.Instruction, depth int) []c04Leaf {
 		var fn *ssa.Function
 		if mc, ok := x.Call.Value.(*ssa.MakeClosure); ok {
 			fn, _ = mc.Fn.(*ssa.Function)
-		} else if cf := x.Call.StaticCallee(); cf != nil && cf.Blocks != nil && core.InRepo(core.FuncPkg(cf)) && len(cf.Params) == 0 {
+		} else if cf := c04Callee(x); cf != nil && cf.Blocks != nil && core.InRepo(core.FuncPkg(cf)) && len(cf.Params) == 0 {
 			fn = cf
 		}
 		if fn == nil || fn.Signature.Results().Len() != 1 {
@@ -1003,6 +1023,9 @@ func c04RuleG(e *c04Env) {
 		var ctors []*ctor
 		for _, f := range e.fns {
 			var ct *ctor
+			if c04Setters[f] != nil {
+				continue
+			}
 			for _, b := range f.Blocks {
 				for _, in := range b.Instrs {
 					st, ok := in.(*ssa.Store)
@@ -1062,13 +1085,13 @@ func c04RuleG(e *c04Env) {
 				// on this side only: it cannot change which predicate was split off
 				for i := 0; i < 3; i++ {
 					wc, ok := sNF.(*ssa.Call)
-					if !ok || wc.Call.StaticCallee() == nil || core.InRepo(core.FuncPkg(wc.Call.StaticCallee())) || len(wc.Call.Args) != 1 || !c04IsString(wc.Call.Args[0].Type()) || !c04IsString(wc.Type()) {
+					if !ok || c04Callee(wc) == nil || core.InRepo(core.FuncPkg(c04Callee(wc))) || len(wc.Call.Args) != 1 || !c04IsString(wc.Call.Args[0].Type()) || !c04IsString(wc.Type()) {
 						break
 					}
 					sNF = c04Src(wc.Call.Args[0], wc, 0)
 				}
 				if sc, ok := sNF.(*ssa.Call); ok {
-					if cf := sc.Call.StaticCallee(); cf != nil && core.InRepo(core.FuncPkg(cf)) && len(sc.Call.Args) == 1 && c04IsString(sc.Call.Args[0].Type()) && c04IsString(sc.Type()) {
+					if cf := c04Callee(sc); cf != nil && core.InRepo(core.FuncPkg(cf)) && len(sc.Call.Args) == 1 && c04IsString(sc.Call.Args[0].Type()) && c04IsString(sc.Type()) {
 						split = cf
 						sIn = c04Src(sc.Call.Args[0], sc, 0)
 					}
@@ -1191,13 +1214,15 @@ func c04RuleH(e *c04Env, r *c04Reader) {
 				}
 				why := ""
 				fail, _ := c04WalkInl(entry, 0, 0, func(w *c04Walker, in ssa.Instruction, st int) (int, int) {
-					switch x := in.(type) {
-					case *ssa.Store:
-						if v, ok := c04StoreTo(x, r.holder); ok && !core.IsNilConst(v) {
+					if v, ok := c04StoreTo(in, r.holder); ok {
+						if !core.IsNilConst(w.resolve(v)) {
 							return st &^ knownNil, c04Cont
 						}
+						return st, c04Cont
+					}
+					switch x := in.(type) {
 					case ssa.CallInstruction:
-						cf := x.Common().StaticCallee()
+						cf := c04Callee(x)
 						if cf == e.addChild && c04IsLoadOf(x.Common().Args[0], r.cur) {
 							return st, c04Stop
 						}
@@ -1225,7 +1250,7 @@ func c04RuleH(e *c04Env, r *c04Reader) {
 					}
 					return st, c04Cont
 				}, func(w *c04Walker, from *ssa.BasicBlock, succ int, st int) int {
-					if k := c04NilTestEdge(from, isHolderLoad); k >= 0 && k == succ {
+					if k := c04NilTestEdge(from, func(v ssa.Value) bool { return isHolderLoad(w.resolve(v)) }); k >= 0 && k == succ {
 						return st | knownNil
 					}
 					return st
@@ -1247,6 +1272,21 @@ func c04RuleH(e *c04Env, r *c04Reader) {
 func c04StateCond(e *c04Env, r *c04Reader, cond ssa.Value) (bool, string) {
 	seen := map[ssa.Value]bool{}
 	bind := map[*ssa.Parameter]ssa.Value{}
+	fieldOK := func(f *types.Var, fa *ssa.FieldAddr) (bool, string) {
+		if e.readerField(r.tn, f) {
+			if f == r.cur || f == r.holder {
+				return true, ""
+			}
+			if pkg, name := c04NamedPath(f.Type()); pkg == "github.com/antchfx/xpath" && name == "Expr" {
+				return true, ""
+			}
+			return false, "reader field " + f.Name()
+		}
+		if n := core.FieldOwner(fa); n != nil {
+			return false, "field " + n.Obj().Name() + "." + f.Name()
+		}
+		return false, "field " + f.Name()
+	}
 	var leaf func(v ssa.Value, d int) (bool, string)
 	leaf = func(v ssa.Value, d int) (bool, string) {
 		if v == nil || seen[v] {
@@ -1280,19 +1320,7 @@ func c04StateCond(e *c04Env, r *c04Reader, cond ssa.Value) (bool, string) {
 			if f == nil {
 				return false, "a value loaded from memory (" + x.Name() + ")"
 			}
-			if n := core.FieldOwner(fa); n != nil && n.Obj() == r.tn {
-				if f == r.cur || f == r.holder {
-					return true, ""
-				}
-				if pkg, name := c04NamedPath(f.Type()); pkg == "github.com/antchfx/xpath" && name == "Expr" {
-					return true, ""
-				}
-				return false, "reader field " + f.Name()
-			}
-			if n := core.FieldOwner(fa); n != nil {
-				return false, "field " + n.Obj().Name() + "." + f.Name()
-			}
-			return false, "field " + f.Name()
+			return fieldOK(f, fa)
 		case *ssa.Phi:
 			for _, ed := range x.Edges {
 				if ok, w := leaf(ed, d+1); !ok {
@@ -1305,6 +1333,9 @@ func c04StateCond(e *c04Env, r *c04Reader, cond ssa.Value) (bool, string) {
 		case *ssa.ChangeType:
 			return leaf(x.X, d+1)
 		case *ssa.Call:
+			if f, fa := c04FieldLoad(x); f != nil {
+				return fieldOK(f, fa) // getter accessor
+			}
 			if e.isQueryResultCall(x) {
 				return true, ""
 			}
@@ -1324,10 +1355,10 @@ func c04StateCond(e *c04Env, r *c04Reader, cond ssa.Value) (bool, string) {
 				return true, ""
 			}
 			// a predicate method of the reader whose results are themselves state conditions
-			if cf := x.Call.StaticCallee(); cf != nil && e.isMethodOf(r, cf) && cf.Blocks != nil && d < 4 {
+			if cf := c04Callee(x); cf != nil && e.isMethodOf(r, cf) && cf.Blocks != nil && d < 4 {
 				for i, p := range cf.Params {
-					if i < len(x.Call.Args) {
-						bind[p] = x.Call.Args[i]
+					if i < len(c04CallArgs(x)) {
+						bind[p] = c04CallArgs(x)[i]
 					}
 				}
 				for _, b := range cf.Blocks {
@@ -1395,7 +1426,7 @@ func c04RuleI(e *c04Env, r *c04Reader) {
 	}
 	for f := range r.wrapFn {
 		for _, ci := range core.Calls(f) {
-			if ci.Common().StaticCallee() == e.remove && c04IsLoadOf(ci.Common().Args[0], r.holder) {
+			if c04Callee(ci) == e.remove && c04IsLoadOf(ci.Common().Args[0], r.holder) {
 				sites = append(sites, site{f, ci, "rejects candidate"})
 			}
 		}
